@@ -315,7 +315,7 @@ impl Scenario for C08 {
     const ID: &'static str = "C08";
     const LEVEL: &'static str = "exploration";
     fn runs(tier: Tier) -> u64 {
-        tier.pick(8_000, 500_000)
+        tier.pick(300_000, 20_000_000)
     }
     fn profiles() -> &'static [Profile] {
         &[Profile::Release]
